@@ -5,7 +5,7 @@ Everything is JSON-serialisable. Imports nothing from nucs.
 import itertools
 import random
 
-from framework.oracles import MIN_ARITY, TYPES
+from framework.oracles import MIN_ARITY, SEM, TYPES
 
 MODEL_TYPES = [t for t in TYPES if t not in ("no_sub_cycle", "scc")]  # circuit constraints are added as a group
 
@@ -268,7 +268,13 @@ def gen_model(rnd, opts=None):
                 break
         return out
 
-    for _ in range(rnd.randint(1, opts.get("max_props", 4))):
+    # a planted assignment: most constraints are generated so that it satisfies them (otherwise random models
+    # are overwhelmingly infeasible and the search is never exercised)
+    plant_shared = [rnd.randint(a, b) for a, b in doms]
+    plant = [plant_shared[idx[v]] + off[v] for v in range(V)]
+    planted = rnd.random() < opts.get("plant", 0.75)
+
+    def one_constraint():
         name = rnd.choice(types)
         lo, hi = arity_range(name, opts.get("max_arity", 4))
         k = rnd.randint(lo, hi)
@@ -278,18 +284,32 @@ def gen_model(rnd, opts=None):
         if name in ("and", "exactly_true"):
             pool = [v for v in range(V) if vdom[v][0] >= 0 and vdom[v][1] <= 1]
             if not pool:
-                continue
+                return None
         vs = pick(k, pool)
         if len(vs) < MIN_ARITY.get(name, 1):
-            continue
+            return None
         if name == "lexicographic_leq" and len(vs) % 2:
             vs = vs[:-1]
         if name == "element_iv" and len(vs) != 2:
-            continue
+            return None
         box = [vdom[v] for v in vs]
         popts = {"gcc_zero_cap": opts.get("gcc_zero_cap", False) and rnd.random() < 0.5,
                  "allow_all_zero": opts.get("affine_all_zero", False)}
         params = gen_params(rnd, name, box, popts)
+        return [vs, name, params]
+
+    for _ in range(rnd.randint(1, opts.get("max_props", 4))):
+        c = None
+        for attempt in range(8 if planted else 1):
+            c2 = one_constraint()
+            if c2 is None:
+                continue
+            c = c2
+            if not planted or SEM[c[1]](tuple(plant[v] for v in c[0]), c[2]):
+                break
+        if c is None:
+            continue
+        vs, name, params = c
         if name == "gcc":
             m = (len(params) - 1) // 2
             if any(u == 0 for u in params[1 + m:]):
